@@ -132,7 +132,7 @@ Section Loop.
                   = a_re r ++ (rl_blanks rl ++ [rl_sp rl]) ++ more).
       { unfold more. repeat first [rewrite <- app_assoc | progress cbn [app]]. reflexivity. }
       assert (Hw : forallb is_ws (rl_blanks rl ++ [rl_sp rl]) = true).
-      { rewrite forallb_app. rewrite (all_iws_ws _ Hblanks). cbn [forallb]. rewrite (space_sep_ws _ Hsp). reflexivity. }
+      { rewrite forallb_app. rewrite (all_space_ws _ Hblanks). cbn [forallb]. rewrite (space_sep_ws _ Hsp). reflexivity. }
       assert (Hne : rl_blanks rl ++ [rl_sp rl] <> []) by (destruct (rl_blanks rl); discriminate).
       split; [|split].
       + destruct Hhd as [c [re [Ere Hcw]]]. rewrite Ere. cbn [app]. eauto.
@@ -382,7 +382,7 @@ Proof.
   apply andb_prop in Hsp'. destruct Hsp' as [Hsp' Hnd]. apply andb_prop in Hsp'. destruct Hsp' as [_ Hrules].
   (* declarations *)
   unfold parse.
-  assert (Hdecl : parse_declarations src awc (fuel_for src) 0 initial_state [] =
+  assert (Hdecl : parse_declarations src awc repaired (fuel_for src) 0 initial_state [] =
                   TOk (byte_len D, {| rules := []; start_states := states_of_spec lay sp |}) []).
   { apply (declarations_roundtrip awc lay sp (print_rules_section lay sp) (fuel_for src) Hsp Hlay).
     - pose proof (rules_section_start awc lay sp Hsp Hlay) as H. destruct (print_rules_section lay sp); exact H.
